@@ -4,6 +4,16 @@ from sa.compdb import AnalysisBroken
 from . import common
 
 
+_lg_cache = {}
+
+
+def lockgraph(prog, f, cg, role, cfgd):
+    k = (id(prog), f.key, cfgd["file"])
+    if k not in _lg_cache:
+        _lg_cache[k] = lock.LockGraph(prog, f, cg, role)
+    return _lg_cache[k]
+
+
 def make_role(cfgd):
     roles = cfgd["roles"]
 
@@ -196,7 +206,7 @@ def check_requires(ck, prog, cfgd, rule):
         lg = None
         for b, i, e in f.iter_elems():
             if any(c.get("fn") in cfgd["requires"] for c in ex.calls(e, into_refs=False)):
-                lg = lg or lock.LockGraph(prog, f, cg, role)
+                lg = lg or lockgraph(prog, f, cg, role, cfgd)
         if lg is None:
             continue
         for blk, i, e, held in lg.sites():
@@ -223,7 +233,7 @@ def check_order(ck, prog, cfgd, rule):
     # functions that take T, called while holding T or M
     takes = {}
     for f in prog.fns_in(cfgd["file"]):
-        lg = lock.LockGraph(prog, f, cg, role)
+        lg = lockgraph(prog, f, cg, role, cfgd)
         acq = set()
         for (h, r, ln) in lg.order:
             pass
@@ -236,7 +246,7 @@ def check_order(ck, prog, cfgd, rule):
         takes[f.name] = acq
     n = 0
     for f in prog.fns_in(cfgd["file"]):
-        lg = lock.LockGraph(prog, f, cg, role)
+        lg = lockgraph(prog, f, cg, role, cfgd)
         pairs = set((h, r) for (h, r, ln) in lg.order)
         # calls made while holding a lock to functions that acquire locks
         for blk, i, e, held in lg.sites():
@@ -260,7 +270,7 @@ def check_order(ck, prog, cfgd, rule):
                   "%s acquires %s while holding %s%s" % (f.name, r, h,
                                                          "" if ok else ": inverse of the established order (deadlock)"),
                   key="ORDER:%s:%s:%s" % (f.name, h, r))
-        for held in lg.exit_held():
+        for held in sorted(set(lg.exit_held()), key=lambda h: sorted(h)):
             ck.ob(rule, "%s:exit" % f.name, not held, common.where(f),
                   "%s returns with %s" % (f.name, "no lock held" if not held else
                                           "mutex %s still held" % ",".join(sorted(held))),
@@ -279,7 +289,7 @@ def check_wait(ck, prog, cfgd, rule):
         ws = lock.wait_sites(f)
         if not ws and not cfgd["waited"]:
             continue
-        lg = lock.LockGraph(prog, f, cg, role)
+        lg = lockgraph(prog, f, cg, role, cfgd)
         held_at = {}
         for blk, i, e, held in lg.sites():
             held_at[(blk.id, i)] = held
